@@ -558,6 +558,41 @@ theorem no_trace_counterexample_old :
     (emits sHidden).all (fun e => e.target != 1) = true := by
   decide
 
+/-! ### two more places where the current code leaves something for an object that is not visible / not marked -/
+
+/-- a file named after an object (`<qualified name>.html`) is its page — or the single-root alias symlink -/
+theorem no_trace_named_file_partial {s : Sys} (w : WF s) {i : Nat} (hi : i < s.n)
+    (h : File.page (fullName s i) ∈ written s) :
+    visible s i = true ∨ File.page (fullName s i) ∈ aliasFiles s := by
+  rcases (mem_written_iff s _).mp h with h | ⟨p, hp, he⟩ | h
+  · rcases mem_summaryFiles_cases h with ⟨x, hx⟩ | ⟨hx, _⟩
+    · cases hx
+    · cases hx
+  · left
+    have hpv := visible_of_mem_pages hp
+    unfold pageFile at he
+    split at he
+    · cases he
+    · injection he with he
+      exact (w.names p i (visible_lt hpv) hi he) ▸ hpv
+  · exact .inr h
+
+/-- current code (open finding `hidden-trace:page-file-alias`): `writeSummaryPages` creates the alias
+`<root>.html -> index.html` for a single root without testing its visibility; since a09aa28 index.html exists
+for a hidden single root (the IndexPage), so a file named after the hidden root leads somewhere. -/
+theorem no_trace_alias_counterexample :
+    wf sSoloHidden = true ∧ visible sSoloHidden 0 = false ∧ fullName sSoloHidden 0 = ['s'] ∧
+    (written sSoloHidden).contains (.page ['s']) = true ∧ (aliasFiles sSoloHidden).contains (.page ['s']) = true := by
+  decide
+
+/-- current code (open finding `private-unmarked:undocumented-summary`): undoccedSummary.html has the
+"Toggle Private API" button but its entries carry no marker, whatever the privacy of the object
+(`sPlain`: the PRIVATE, undocumented class `m.K`). -/
+theorem private_marked_undoc_counterexample :
+    (sPlain.ob 1).privacy = .priv ∧
+    ((emits sPlain).any fun e => e.row == .undoc && e.target == 1 && e.marked == none) = true := by
+  decide
+
 /-! ### non-vacuity -/
 
 /-- a private class in a public module: listed (and marked) in the module's table, the sidebar, the
